@@ -23,3 +23,161 @@ Proof.
     try (left; split; [reflexivity | intro E; try reflexivity; discriminate E]);
     try (right; split; reflexivity).
 Qed.
+
+(* ====================================================================================== *)
+(* machine_kern: the pairs it selects, the effect of one pair in pen coordinates, kerning off *)
+From RB Require Import Proofs.GposP Proofs.AttachP.
+Local Open Scope Z_scope.
+
+(* ---------- pair selection ---------- *)
+
+(* every pair machine_kern visits is (i, next glyph after i that IgnoreMarks does not skip) *)
+Lemma kern_pairs_spec : forall fuel f infos s i j,
+  In (i, j) (kern_pairs fuel f infos s) -> skip_next f LF_IGNORE_MARKS infos i = Some j.
+Proof.
+  induction fuel; intros f infos s i j H; cbn [kern_pairs] in H; [destruct H|].
+  destruct (length infos <=? s)%nat; [destruct H|].
+  destruct (skip_next f LF_IGNORE_MARKS infos s) as [j'|] eqn:E.
+  - destruct H as [H|H]; [inversion H; subst; exact E | eapply IHfuel; exact H].
+  - eapply IHfuel; exact H.
+Qed.
+
+Lemma kern_pairs_selected : forall fuel f infos s i j,
+  In (i, j) (kern_pairs fuel f infos s) ->
+  (i < j < length infos)%nat /\
+  check_glyph_property f (geti infos j) LF_IGNORE_MARKS = true /\
+  (forall k, (i < k < j)%nat -> check_glyph_property f (geti infos k) LF_IGNORE_MARKS = false).
+Proof. intros. apply skip_next_spec. eapply kern_pairs_spec. eassumption. Qed.
+
+(* ---------- one pair, in pen coordinates ---------- *)
+
+(* replacing position i moves the pen of every later glyph by the change of the advance *)
+Lemma pen_upd : forall ps i p m, (i < length ps)%nat ->
+  fst (pen (upd ps i p) m) = fst (pen ps m) + (if (i <? m)%nat then xa p - xa (getp ps i) else 0) /\
+  snd (pen (upd ps i p) m) = snd (pen ps m) + (if (i <? m)%nat then ya p - ya (getp ps i) else 0).
+Proof.
+  intros ps i p m Hi. induction m.
+  - cbn. split; lia.
+  - rewrite !pen_S. cbn [fst snd]. destruct IHm as [Ix Iy]. rewrite Ix, Iy. rewrite getp_upd.
+    destruct (Nat.ltb_spec i m), (Nat.ltb_spec i (S m)), (Nat.eqb_spec i m); try lia;
+      destruct (Nat.ltb_spec i (length ps)); try lia; cbn [andb]; subst; split; lia.
+Qed.
+
+Lemma kern1_kern2 : forall k, kern1 k + kern2 k = k.
+Proof. intros. unfold kern2. lia. Qed.
+
+(* C07_kern, horizontal, not cross-stream: every glyph up to the first of the pair stays, the glyphs
+   between the two (skipped marks) move by k1 = k >> 1, the second glyph and everything after it by k.
+   The cross axis does not move. *)
+Lemma kern_pair_origin_h : forall d ps i j k m,
+  is_horizontal d = true -> (i < j < length ps)%nat ->
+  let ps' := kern_pair_apply d false ps i j k in
+  fst (origin ps' m) = fst (origin ps m) + (if (m <=? i)%nat then 0 else if (m <? j)%nat then kern1 k else k) /\
+  snd (origin ps' m) = snd (origin ps m) /\
+  fst (pen ps' (length ps)) = fst (pen ps (length ps)) + k.
+Proof.
+  intros d ps i j k m Hh Hij ps'. subst ps'. unfold kern_pair_apply. rewrite Hh.
+  set (ps1 := upd ps i (set_xa (getp ps i) (xa (getp ps i) + kern1 k))).
+  assert (L1 : length ps1 = length ps) by apply length_upd.
+  assert (Gj : getp ps1 j = getp ps j) by (apply getp_upd_other; lia).
+  unfold origin.
+  assert (P : forall m, fst (pen (upd ps1 j (set_xo (set_xa (getp ps1 j) (xa (getp ps1 j) + kern2 k)) (xo (getp ps1 j) + kern2 k))) m)
+                        = fst (pen ps m) + (if (i <? m)%nat then kern1 k else 0) + (if (j <? m)%nat then kern2 k else 0) /\
+                        snd (pen (upd ps1 j (set_xo (set_xa (getp ps1 j) (xa (getp ps1 j) + kern2 k)) (xo (getp ps1 j) + kern2 k))) m)
+                        = snd (pen ps m)).
+  { intro m0.
+    destruct (pen_upd ps1 j (set_xo (set_xa (getp ps1 j) (xa (getp ps1 j) + kern2 k)) (xo (getp ps1 j) + kern2 k)) m0 ltac:(lia)) as [A B].
+    destruct (pen_upd ps i (set_xa (getp ps i) (xa (getp ps i) + kern1 k)) m0 ltac:(lia)) as [C D].
+    fold ps1 in C, D. rewrite A, B, C, D. cbn [xa ya set_xa set_xo].
+    destruct (i <? m0)%nat, (j <? m0)%nat; split; lia. }
+  set (ps2 := upd ps1 j (set_xo (set_xa (getp ps1 j) (xa (getp ps1 j) + kern2 k)) (xo (getp ps1 j) + kern2 k))) in *.
+  assert (X : xo (getp ps2 m) = xo (getp ps m) + (if (j =? m)%nat then kern2 k else 0)).
+  { unfold ps2. rewrite getp_upd, L1. destruct (Nat.eqb_spec j m) as [->|Hjm].
+    - destruct (Nat.ltb_spec m (length ps)); [|lia]. cbn [andb xo set_xo set_xa]. rewrite Gj. reflexivity.
+    - cbn [andb]. unfold ps1. rewrite getp_upd. destruct (Nat.eqb_spec i m) as [->|]; cbn [andb]; [|lia].
+      destruct (Nat.ltb_spec m (length ps)); cbn [xo set_xa]; lia. }
+  assert (Y : yo (getp ps2 m) = yo (getp ps m)).
+  { unfold ps2. rewrite getp_upd, L1. destruct (Nat.eqb_spec j m) as [->|Hjm].
+    - destruct (Nat.ltb_spec m (length ps)); [|lia]. cbn [andb yo set_xo set_xa]. rewrite Gj. reflexivity.
+    - cbn [andb]. unfold ps1. rewrite getp_upd. destruct (Nat.eqb_spec i m) as [->|]; cbn [andb]; [|reflexivity].
+      destruct (Nat.ltb_spec m (length ps)); reflexivity. }
+  pose proof (kern1_kern2 k) as K12.
+  split; [|split].
+  - destruct (P m) as [Px _]. rewrite Px, X.
+    destruct (Nat.ltb_spec i m), (Nat.ltb_spec j m), (Nat.eqb_spec j m), (Nat.leb_spec m i), (Nat.ltb_spec m j); cbn [fst snd]; lia.
+  - destruct (P m) as [_ Py]. cbn [fst snd]. rewrite Py, Y. reflexivity.
+  - destruct (P (length ps)) as [Px _]. rewrite Px.
+    destruct (Nat.ltb_spec i (length ps)), (Nat.ltb_spec j (length ps)); lia.
+Qed.
+
+(* ---------- the subtable loop ---------- *)
+
+Lemma machine_kern_length : forall f d cross pairs infos ps a,
+  length (fst (machine_kern f d cross pairs infos ps a)) = length ps.
+Proof.
+  intros. unfold machine_kern.
+  generalize (kern_pairs (length infos) f infos 0). intro l. revert ps a.
+  induction l as [|[i j] t IH]; intros ps a; [reflexivity|].
+  cbn [fold_left]. unfold kern_step at 2.
+  destruct (kern_lookup pairs (gid (geti infos i)) (gid (geti infos j)) =? 0); [apply IH|].
+  rewrite IH. unfold kern_pair_apply.
+  destruct (is_horizontal d), cross; rewrite ?length_upd; reflexivity.
+Qed.
+
+(* glyph order: the two reversals of the repaired loop are paired for every subtable, kerning
+   requested or not, so the loop never changes the order of the glyphs *)
+Lemma kern_step_infos : forall f d requested s st,
+  k_infos (kern_subtable_step f d requested s st) = k_infos s.
+Proof.
+  intros. unfold kern_subtable_step.
+  destruct (negb (Bool.eqb (is_horizontal d) (k_horizontal st))); [reflexivity|].
+  assert (E : k_infos (kern_prologue d st s) = k_infos s)
+    by (unfold kern_prologue; destruct (negb (k_seen_cross s) && k_cross_stream st); reflexivity).
+  destruct (negb requested); [exact E|].
+  destruct (is_backward d).
+  - destruct (machine_kern f d (k_cross_stream st) (k_pairs st) _ _ _). cbn. rewrite rev_involutive. exact E.
+  - destruct (machine_kern f d (k_cross_stream st) (k_pairs st) _ _ _). cbn. exact E.
+Qed.
+
+Lemma kern_loop_infos : forall f d requested sts s, k_infos (kern_loop f d requested sts s) = k_infos s.
+Proof.
+  intros f d requested sts. unfold kern_loop. induction sts as [|st t IH]; intro s; [reflexivity|].
+  cbn [fold_left]. rewrite IH. apply kern_step_infos.
+Qed.
+
+(* kerning off: the four position fields of every glyph, the attachment flag and the glyph order are
+   those the loop started with (only the cross-stream chain marking of kern_prologue remains, which
+   the code also performs before testing requested_kerning) *)
+Definition pos4 (p : pos) : Z * Z * Z * Z := (xa p, ya p, xo p, yo p).
+
+Lemma kern_off_step : forall f d s st,
+  let s' := kern_subtable_step f d false s st in
+  k_infos s' = k_infos s /\ map pos4 (k_ps s') = map pos4 (k_ps s) /\ k_attach s' = k_attach s.
+Proof.
+  intros. subst s'. unfold kern_subtable_step.
+  destruct (negb (Bool.eqb (is_horizontal d) (k_horizontal st))); [repeat split|].
+  cbn [negb]. unfold kern_prologue.
+  destruct (negb (k_seen_cross s) && k_cross_stream st); [|repeat split].
+  cbn. repeat split. unfold attach_all. rewrite map_map. apply map_ext. intro p. reflexivity.
+Qed.
+
+Lemma kern_off_exact : forall f d sts s,
+  let s' := kern_loop f d false sts s in
+  k_infos s' = k_infos s /\ map pos4 (k_ps s') = map pos4 (k_ps s) /\ k_attach s' = k_attach s.
+Proof.
+  intros f d sts. unfold kern_loop. induction sts as [|st t IH]; intro s; [repeat split|].
+  cbn [fold_left]. destruct (IH (kern_subtable_step f d false s st)) as (A & B & C).
+  destruct (kern_off_step f d s st) as (A' & B' & C').
+  cbn zeta in *. rewrite A, B, C. repeat split; assumption.
+Qed.
+
+(* the shape of the loop before the repair does NOT have this property: a backward buffer with one
+   matching subtable comes out reversed *)
+Lemma kern_off_unpaired_refuted :
+  exists f d sts s, k_infos (kern_loop_unpaired f d false sts s) <> k_infos s.
+Proof.
+  exists (mkFont 3 1000 800 (-200) 0 [500; 500; 500]%N None [] [] None None None None None),
+         RTL, [mkKern true false false false [(1%N, 2%N, -50)]],
+         (mkK [mkInfo 1 0 0 0 0; mkInfo 2 0 1 0 0] [pos0; pos0] false false).
+  vm_compute. discriminate.
+Qed.
